@@ -411,6 +411,26 @@ def run(ctx, rep):
             rets = [r for r in own_nodes(f.node) if isinstance(r, ast.Return) and isinstance(r.value, ast.Name)]
             if not rets or not any(o.func.value.id == rets[0].value.id for o in outs):
                 probs.append("results are not appended, in order, to the returned list")
+            else:
+                # ... for EVERY element: the append is a statement of the loop body itself (not under a condition), and no
+                # element leaves the iteration early (continue / break at this loop's level) -- raising is the only other exit
+                app = [o for o in outs if o.func.value.id == rets[0].value.id][0]
+                if not any(isinstance(st_, ast.Expr) and st_.value is app for st_ in lp.body):
+                    probs.append("the result is appended only under a condition: some elements produce no output entry")
+
+                def jumps(stmts):
+                    for st_ in stmts:
+                        if isinstance(st_, (ast.Continue, ast.Break)):
+                            yield st_
+                        elif isinstance(st_, (ast.For, ast.While, ast.FunctionDef, ast.AsyncFunctionDef, ast.ClassDef)):
+                            yield from jumps(getattr(st_, "orelse", []) or [])
+                        else:
+                            for fld in ("body", "orelse", "finalbody"):
+                                yield from jumps(getattr(st_, fld, []) or [])
+                            for h_ in getattr(st_, "handlers", []) or []:
+                                yield from jumps(h_.body)
+                if any(True for _ in jumps(lp.body)):
+                    probs.append("an element can leave the iteration early (continue / break): the output has fewer entries than the input")
         rep.ob("U4", not probs, f.node, f, construct="element-wise application in %s" % f.name,
                how="one call of %s per element, vocabulary/pad forwarded unchanged, results in order" % per.name,
                witness="; ".join(probs) or None, nontrivial=True, key="%s/%s" % (f.name, "ok" if not probs else probs[0][:40]))
@@ -418,10 +438,9 @@ def run(ctx, rep):
     batch = h2b.posparams[0]
     loops = [n for n in own_nodes(h2b.node) if isinstance(n, ast.For) and isinstance(n.iter, ast.Name) and n.iter.id == batch]
     probs = []
-    if len(loops) == 1 and isinstance(loops[0].target, ast.Name):
-        lp = loops[0]
-        v = lp.target.id
-        env = {}
+    def u3_block(lp, v, pre):
+        probs = []
+        env = dict(pre)
         inside = {}
         for st in ast.walk(lp):
             if isinstance(st, ast.Assign) and isinstance(st.targets[0], ast.Name):
@@ -483,6 +502,35 @@ def run(ctx, rep):
             order = [id(x) for x in ast.walk(lp)]
             if order.index(id(good_test[0])) > order.index(id(sl[0])):
                 probs.append("divisibility test does not precede the reshape")
+        return probs
+    if len(loops) == 1 and isinstance(loops[0].target, ast.Name):
+        lp = loops[0]
+        v = lp.target.id
+        probs = u3_block(lp, v, {})
+        if probs:
+            # the reshape may live in a helper that the loop body calls, unconditionally, with the vector and the width
+            W_ = {("len(vocab_itos)",): 1}
+            env0 = {}
+            for st in own_nodes(h2b.node):
+                if isinstance(st, ast.Assign) and isinstance(st.targets[0], ast.Name) and unparse(st.value) == "len(vocab_itos)":
+                    env0[st.targets[0].id] = dict(W_)
+            for st in lp.body:
+                calls = [c for c in ast.walk(st) if isinstance(c, ast.Call)] if isinstance(st, (ast.Assign, ast.Expr)) else []
+                for c in calls:
+                    site = [s_ for s_ in ctx.cg.sites(h2b) if s_.node is c]
+                    if not site or len(site[0].callees) != 1:
+                        continue
+                    g = site[0].callees[0]
+                    if g.module is not h2b.module or g.cls is not None or c.keywords or len(c.args) != len(g.posparams):
+                        continue
+                    vpar = [g.posparams[i] for i, a_ in enumerate(c.args) if isinstance(a_, ast.Name) and a_.id == v]
+                    wpar = [g.posparams[i] for i, a_ in enumerate(c.args) if poly(a_, env0) == W_]
+                    if len(vpar) == 1 and len(wpar) == 1:
+                        body = [x for x in g.node.body if not (isinstance(x, ast.Expr) and isinstance(x.value, ast.Constant))]
+                        synth = ast.For(target=ast.Name(id=vpar[0], ctx=ast.Store()), iter=ast.Name(id=batch, ctx=ast.Load()), body=body, orelse=[])
+                        p2 = u3_block(synth, vpar[0], {wpar[0]: dict(W_)})
+                        if not p2:
+                            probs = []
     else:
         probs.append("no single plain loop over the batch")
     rep.ob("U3", not probs, h2b.node, h2b, construct="reshape of flat one-hot vectors",
